@@ -19,6 +19,11 @@ from hypothesis import strategies as st
 from tqv import gen, ref
 from tqv.core import Inconclusive, SubCheck, Violation, req
 
+# caller-owned arrays handed to the library must come back unchanged (see tqv/purity.py)
+from tqv.purity import install as _install_purity  # noqa: E402
+
+_install_purity('toqito.state_props', 'toqito.state_ops', 'toqito.matrix_props')
+
 PROPERTY = "C14"
 RULE = (
     "Cases are drawn by Hypothesis. Pure bipartite states are built from their Schmidt data: local dims d1,d2 in 2..4 "
